@@ -10,6 +10,7 @@ use serde::{Deserialize, Serialize};
 use std::collections::HashMap;
 use std::sync::{Arc, Mutex};
 
+use super::multi::{self, Multi};
 use super::sm9util::*;
 use crate::engine::*;
 use crate::gen;
@@ -123,6 +124,8 @@ pub enum Tamper {
     C1XPlusP,
     /// y + p when it fits
     C1YPlusP,
+    /// a multi-byte alteration (see props/multi.rs) of region 0: C3, 1: C2, 2: the x coordinate of C1, 3: everything after the prefix byte
+    Multi(u8, Multi),
 }
 
 #[derive(Serialize, Deserialize, Hash, Debug, Clone)]
@@ -213,6 +216,19 @@ pub fn check_tamper(c: &TCase) -> CaseResult {
             ct[33..65].copy_from_slice(&to32(&y));
             class = "C1-x+p";
         }
+        Tamper::Multi(region, m) => {
+            let n = ct.len();
+            let (lo, hi, name) = match region % 4 {
+                0 => (65, 97, "multi-C3"),
+                1 => (97, n, "multi-C2"),
+                2 => (1, 33, "multi-C1x"),
+                _ => (1, n, "multi-body"),
+            };
+            if !multi::apply(&mut ct[lo..hi], m) {
+                return pass(false, "multi-noop");
+            }
+            class = name;
+        }
     }
     // the reference decryptor uses the key of the identity the caller names
     let de_for = if matches!(c.tamper, Tamper::OtherIdentity) { de_ref.clone() } else { de_ref };
@@ -242,6 +258,33 @@ fn check_ref_encrypted(b: &Base) -> CaseResult {
     pass(true, "reference-encrypted")
 }
 
+#[derive(Serialize, Deserialize, Hash, Debug, Clone)]
+pub struct EdgeC1 {
+    pub point: usize,
+    pub id_len: usize,
+    pub msg_len: usize,
+}
+
+/// a conforming ciphertext whose C1 is a boundary point of G1 (coordinates next to 0, N, p, powers of two, special limb patterns)
+fn check_edge_c1(c: &EdgeC1) -> CaseResult {
+    let eps = g1_edge_points();
+    let (label, x, y) = &eps[c.point % eps.len()];
+    let m = master(&BigUint::from(0x1234_5678u64));
+    let id = expand_bytes(c.point as u64 ^ 0xed10, c.id_len.max(1));
+    let msg = expand_bytes(c.point as u64 ^ 0xed11, c.msg_len.clamp(1, 255));
+    let Some(de_ref) = r9::enc_key(&m.ke, &id) else { return pass(false, "extraction-undefined") };
+    let c1 = Some((r9::fp(x), r9::fp(y)));
+    let Some(w) = r9::encrypt_to_c1(&de_ref, &id, &c1, &msg) else { return pass(false, "retry") };
+    let ct = w.encode();
+    if r9::decrypt(&de_ref, &id, &ct).as_deref() != Some(&msg[..]) {
+        return pass(false, "reference-disagrees-with-itself");
+    }
+    let key = catch(|| m.lib.extract_key(&id)).map_err(|p| Fail { key: "entry=Sm9EncMasterKey::extract_key outcome=panic".into(), detail: p })?.ok_or_else(|| Fail { key: "entry=Sm9EncMasterKey::extract_key input=valid outcome=none".into(), detail: "".into() })?;
+    let got = outcome(|| key.decrypt(&id, &ct));
+    ensure!(got == Outcome::Ok(msg.clone()), "entry=Sm9EncKey::decrypt input=conforming-ciphertext outcome=failure", "C1 = edge point {} x={:x} y={:x} |ID|={} |M|={} ct={}: {}", label, x, y, id.len(), msg.len(), hex::encode(&ct), got.describe());
+    pass(true, "edge-C1")
+}
+
 fn base_strategy() -> impl Strategy<Value = Base> {
     let n = r9::params().n.clone();
     (
@@ -267,6 +310,7 @@ pub fn tamper_strategy() -> impl Strategy<Value = Tamper> {
         1 => Just(Tamper::C1XPlusP),
         1 => Just(Tamper::C1YPlusP),
         1 => Just(Tamper::None),
+        6 => (prop_oneof![3 => Just(0u8), 1 => Just(1u8), 1 => Just(2u8), 1 => Just(3u8)], multi::strategy()).prop_map(|(r, m)| Tamper::Multi(r, m)),
     ]
 }
 
@@ -283,8 +327,8 @@ pub fn run(ctx: &Ctx) {
     ctx.set_rule(
         "encryption cases are (ke, identity, message of 1..255 bytes, r): every message length 1..=255 with r injected through the RNG hook, plus generated master keys / identities; tampering cases are (reference-made ciphertext, tampering): \
          every single-bit flip incl. the prefix byte (sampled in the quick tier, all in the thorough tier), every truncation length, extensions (also beyond 97+255 bytes), another identity, C1 nudged off the curve, C1 replaced by an off-curve point with \
-         C3/C2 forged from the library's own pairing value on that non-point (the invalid-curve forgery), every other prefix byte, the x+p alias of C1. Oracles: exact equality with the reference encryptor (C1 || C3 || C2, MAC(K2, C2) = SM3(C2 || K2), \
-         K = KDF(C1 || w || ID, |M| + 32)); independent decryption; round trip; reference-made and Annex ciphertexts decrypt; for tamperings the reference decryptor decides, a panic is a violation. Non-trivial: fixed-r comparison, or a rejected tampering.",
+         C3/C2 forged from the library's own pairing value on that non-point (the invalid-curve forgery), every other prefix byte, the x+p alias of C1, multi-byte alterations of C3 / C2 / C1.x that preserve the xor, the sum or the multiset of the bytes or words (a folded or partial MAC comparison accepts them), wholesale replacements of C3. Oracles: exact equality with the reference encryptor (C1 || C3 || C2, MAC(K2, C2) = SM3(C2 || K2), \
+         K = KDF(C1 || w || ID, |M| + 32)); independent decryption; round trip; reference-made and Annex ciphertexts decrypt, also with C1 a boundary point of G1; for tamperings the reference decryptor decides, a panic is a violation. Non-trivial: fixed-r comparison, or a rejected tampering.",
     );
     ctx.assume("reference encryptor/decryptor (harness/src/refimpl/sm9.rs) reproduce the GM/T 0044.5 Annex C ciphertext (KDF/XOR variant) bit for bit");
     ctx.assume("the wire format is the library's: 04 || x || y || C3 || C2 (the standard leaves the encoding of C1 to the application); hooks: RNG candidate override, pairing wrapper (only to forge the invalid-curve ciphertext)");
@@ -356,6 +400,25 @@ pub fn run(ctx: &Ctx) {
             }
             for j in 0..6u64 {
                 v.push(TCase { base: b.clone(), tamper: Tamper::C1OffCurveForged(j) });
+            }
+        }
+        v
+    }, check_tamper);
+
+    ctx.listed("foreign_c1_edge_points", "conforming ciphertexts whose C1 is a boundary point of G1 (x next to 0, N, p, 2^256-p, powers of two, Montgomery limb patterns, y with a leading zero byte), w = e(C1, de) from the reference pairing", || {
+        (0..g1_edge_points().len()).map(|point| EdgeC1 { point, id_len: 1 + point % 9, msg_len: 1 + (point * 7) % 50 }).collect()
+    }, check_edge_c1);
+
+    let nbm = ctx.tier.pick(1usize, 8usize);
+    let dense = ctx.tier.pick(false, true);
+    ctx.exhaustive("c3_multi_byte_alterations", "alterations of C3 that keep the xor / sum / multiset of its bytes or words (byte pairs at word distances in the quick tier, all pairs in the thorough tier, x 3 masks; sum-preserving pairs, rotations, word shuffles, partial keeps), 400 wholesale replacements; the word-distance family on C2 — for each base", move || {
+        let mut v = Vec::new();
+        for b in fixed_bases(seed ^ 0x66, nbm) {
+            for m in multi::family(32, dense, 400) {
+                v.push(TCase { base: b.clone(), tamper: Tamper::Multi(0, m) });
+            }
+            for m in multi::family(b.msg_len.clamp(1, 255), false, 8) {
+                v.push(TCase { base: b.clone(), tamper: Tamper::Multi(1, m) });
             }
         }
         v
